@@ -323,23 +323,28 @@ class Gen:
         self.rng = rng
         self.n = 0
         self.with_x = with_x      # False: no harness build in which the injected allocation fault works -> plain stores instead
+        self.keys, self.trigs = KEYS, TRIGS
 
-    def store(self, keys=KEYS, live_only=False):
+    def universe(self, keys, trigs):
+        """key / trigger alphabet of the case being generated"""
+        self.keys, self.trigs = list(keys), list(trigs)
+
+    def store(self, keys=None, live_only=False, key=None):
         r = self.rng
-        k = r.choice(keys)
+        k = key if key is not None else r.choice(keys or self.keys)
         self.n += 1
         tag = b'%s.%d|' % (k, self.n)
         ln = r.choice([len(tag), len(tag), 33, 64, 100, 200, 700])
         ln = max(ln, len(tag))
         tr = set()
-        for t in TRIGS:
+        for t in self.trigs:
             if r.random() < 0.3:
                 tr.add(t)
         dl = 2000 if live_only else r.choice([2000, 2000, 2000, 2000, 1500, 1000, 999, 3000])
         g = '-' if r.random() < 0.8 else str(r.choice([0, 1, 7, 2 ** 40, 2 ** 64 - 1]))
         return 'S:%s:#%dx%s:%s:%d:%s' % (hx(k), ln, hx(tag), '+'.join(hx(t) for t in sorted(tr)) if tr else '.', dl, g)
 
-    def failed_store(self, keys=KEYS):
+    def failed_store(self, keys=None):
         """a store whose value copy fails: the value must be long enough (>= 16 bytes) for the copy to allocate"""
         t = self.store(keys).split(':')
         ln = int(t[2][1:t[2].index('x')])
@@ -347,8 +352,9 @@ class Gen:
             t[2] = '#%d%s' % (self.rng.choice([16, 17, 33, 100]), t[2][t[2].index('x'):])
         return 'X:' + ':'.join(t[1:])
 
-    def op(self, mix, keys=KEYS):
+    def op(self, mix, keys=None):
         r = self.rng
+        keys = keys or self.keys
         x = r.random()
         acc = 0.0
         for kind, p in mix:
@@ -362,7 +368,7 @@ class Gen:
         if kind == 'F':
             return 'F:' + hx(r.choice(keys))
         if kind == 'R':
-            return 'R:' + hx(r.choice(TRIGS + [r.choice(keys)]))
+            return 'R:' + hx(r.choice(self.trigs + [r.choice(keys)]))
         if kind == 'D':
             return 'D:' + hx(r.choice(keys))
         return kind          # C, Z
@@ -374,18 +380,72 @@ MIX_READ_RARE_W = [('F', 0.85), ('Z', 0.05), ('S', 0.05), ('X', 0.01), ('R', 0.0
 MIX_WRITE = [('S', 0.45), ('X', 0.08), ('R', 0.14), ('D', 0.13), ('C', 0.1), ('F', 0.05), ('Z', 0.05)]
 
 
+def collision_universes(exe, notes):
+    """key sets that COLLIDE in the hash maps of the cache (primary: entry keys; triggers: trigger names and entry keys), computed with
+    the string_hash of the CURRENT private/hash_map.h (harness command `hash`): a bucket is hash % table size, the table grows 2,4,8,16,..
+    (or starts at the limit), so keys with the same full hash share a bucket for every table size, keys whose hashes differ by a multiple of
+    16 share one up to 16 buckets and are split by a later growth.  Returns a list of (keys, trigs) universes, [] if none can be built."""
+    pool = [bytes([a, b]) for a in range(0x61, 0x71) for b in range(0x20, 0x7f)]
+    try:
+        rc, out, err = vlib.run_lines(exe, ['hash ' + ' '.join(hx(k) for k in pool)], timeout=60, env=TSAN_ENV)
+        vals = [int(x) for x in out[0].split()[1:]] if out and out[0].startswith('hash') else []
+    except Exception as e:
+        vals = []
+    if len(vals) != len(pool):
+        notes.append('harness `hash` command gave no usable answer: no colliding key sets were generated')
+        return []
+    by = {}
+    for k, h in zip(pool, vals):
+        by.setdefault(h, []).append(k)
+    groups = sorted((g for g in by.items() if len(g[1]) >= 3), key=lambda g: (-len(g[1]), g[0]))
+    if len(groups) < 2:
+        notes.append('string_hash has no 2-byte collisions in the candidate pool: no colliding key sets were generated')
+        return []
+    unis = []
+    for gi in range(0, min(len(groups) - 1, 6), 2):
+        (hk, ks), (ht, ts) = groups[gi], groups[gi + 1]
+        keys = ks[:5]
+        trigs = ts[:3] + [keys[1]]                       # trigger names colliding among themselves + one named like a key
+        unis.append((keys, trigs))
+        # same bucket only while the table has <= 16 buckets: two full collisions + two keys 16 and 32 further
+        near = [k for h, g in by.items() if h != hk and (h - hk) % 16 == 0 and abs(h - hk) <= 64 for k in g[:1]]
+        if len(near) >= 2:
+            unis.append((ks[:2] + near[:2] + [b'k1'], ts[:2] + [near[0]]))
+    return unis
+
+
+COLL_STATIC = ([b'aP', b'b@', b'c0', b'd '], [b'sA', b't1', b'u!', b'b@'])      # 4 keys with hash 1632, 3 triggers with hash 1905 (regression corpus)
+
+
 def mk_case(mode, limit, seed, prefill, groups):
     return 'mt %s %d %d %d %s' % (mode, limit, NOW, seed, ' '.join(prefill)) + ''.join(' ; ' + ' '.join(g) for g in groups)
 
 
-def gen_cases(ctx, with_x=True):
+def gen_cases(ctx, with_x=True, coll=()):
     rng = ctx.rng
     g = Gen(rng, with_x)
     seq, race, lin = [], [], []
     limits = [0, 0, 0, 1, 2, 3, 5]
+    coll = list(coll)
+
+    def pick_universe(p):
+        """with probability p the case uses keys / triggers that collide in the hash maps; returns the universe or None"""
+        if coll and rng.random() < p:
+            u = rng.choice(coll)
+            g.universe(*u)
+            return u
+        g.universe(KEYS, TRIGS)
+        return None
+
+    def fill_all(keys):
+        """one live store per key, random order: every key of a colliding set sits in the bucket, most of them not at its head"""
+        ks = list(keys)
+        rng.shuffle(ks)
+        return [g.store(key=k, live_only=True) for k in ks]
     # (a) deterministic: prefill + one group, both modes (single-threaded correspondence with the sequential model)
     for _ in range(ctx.scale(400, 3000)):
         g.with_x = with_x and rng.random() < 0.5
+        pick_universe(0.3)
         lim = rng.choice(limits)
         n = rng.choice([1, 2, 3, 5, 8, 13, 30])
         pre = [g.op(MIX_ALL) for _ in range(rng.choice([0, 1, 3]))]
@@ -396,8 +456,15 @@ def gen_cases(ctx, with_x=True):
         lim = rng.choice(limits)
         nt = rng.choice([2, 2, 3, 4, 4, 6, 8])
         nops = rng.choice([20, 40, 80]) if ctx.quick() else rng.choice([20, 40, 80, 200])
-        shape = i % 5
-        if shape == 0:       # prefilled, fetch/stats only: reader-reader interaction (the LRU list under lru_mutex)
+        shape = i % 6
+        uni = pick_universe(1.0 if shape == 5 else 0.4)
+        if shape == 5 and uni:
+            # readers only on a prefilled cache whose keys all share ONE bucket of primary: a lookup that is not read-only
+            # (find() under the shared lock) is a data race between two fetches, no mutator needed
+            pre = fill_all(uni[0])
+            groups = [[g.op(MIX_READ) for _ in range(nops)] for _ in range(nt)]
+            lim = rng.choice([0, 0, 0, 8])
+        elif shape == 0 or shape == 5:       # prefilled, fetch/stats only: reader-reader interaction (the LRU list under lru_mutex)
             pre = [g.store(live_only=True) for _ in range(4)]
             groups = [[g.op(MIX_READ) for _ in range(nops)] for _ in range(nt)]
             lim = rng.choice([0, 0, 5])
@@ -421,7 +488,18 @@ def gen_cases(ctx, with_x=True):
         nt = rng.choice([2, 2, 3, 3, 4, 5, 8])
         per = {2: [6, 10, 14], 3: [5, 8, 10], 4: [4, 6, 8], 5: [4, 6], 8: [3, 4]}[nt]
         nops = rng.choice(per)
-        keys = KEYS if rng.random() < 0.5 else KEYS[:2] if rng.random() < 0.7 else KEYS[:1]
+        uni = pick_universe(0.4)
+        if uni and i % 4 == 0:
+            # read-only phase over one bucket: every key stored once (live, no limit), then only fetches / stats from all threads:
+            # every fetch must hit (miss-of-live-entry otherwise) and return (watchdog otherwise)
+            lim = 0
+            keys = uni[0]
+            pre = fill_all(keys)
+            groups = [[g.op(MIX_READ, keys) for _ in range(nops)] for _ in range(nt)]
+            lin.append(mk_case('l', lim, rng.randrange(0, 2 ** 31) if rng.random() < 0.8 else 0, pre, groups))
+            continue
+        ku = g.keys
+        keys = ku if rng.random() < 0.5 else ku[:2] if rng.random() < 0.7 and not uni else ku[:3] if uni else ku[:1]
         pre = [g.op(MIX_ALL, keys) for _ in range(rng.choice([0, 0, 2, 4]))]
         mix = rng.choice([MIX_ALL, MIX_ALL, MIX_READ_RARE_W, MIX_WRITE])
         groups = [[g.op(mix, keys) for _ in range(nops)] for _ in range(nt)]
@@ -657,7 +735,9 @@ def run(ctx):
     t3 = time.time()
     ctx.coverage['rule'] = (
         'case = limit, constant clock, optional prefill run by the main thread, then one operation sequence per thread (2..8 threads) over 3 keys / 3 triggers '
-        '(one trigger is named like a key); values carry a unique tag (key, serial) and are 5..700 bytes; deadlines live/at-now/expired; explicit and automatic '
+        '(one trigger is named like a key) or - 40 % of the concurrent, 30 % of the deterministic cases - over 5 keys and 3 trigger names that COLLIDE in the '
+        'hash maps of the cache (same string_hash value, computed with the current private/hash_map.h through the harness; also sets that share a bucket '
+        'only up to 16 buckets), incl. readers-only phases over one bucket; values carry a unique tag (key, serial) and are 5..700 bytes; deadlines live/at-now/expired; explicit and automatic '
         'generations; limits 0,1,2,3,5; X = store whose value copy throws an injected std::bad_alloc (value >= 16 bytes; must behave like remove). Three families: (a) one thread group - deterministic, compared line by line with the extracted model; (b) race mode - '
         'threads share only the cache and a start line, 20-200 calls each, five shapes (readers only on a prefilled cache, readers with rare writers, one writer '
         'and readers, writers only, uniform mix), verdict = ThreadSanitizer reports + history oracle; (c) history mode - every call bracketed by ticks of a '
@@ -685,7 +765,9 @@ def run(ctx):
             (lin if mode == 'l' else race).extend(variants)
     else:
         corpus = vlib.corpus_cases('C09')
-        seq, race, lin = gen_cases(ctx, with_x=exe_fi is not None)
+        coll = collision_universes(exe, ctx.notes)
+        ctx.coverage['colliding_key_sets'] = [{'keys': [k.decode('latin1') for k in ks], 'triggers': [t.decode('latin1') for t in ts]} for ks, ts in coll]
+        seq, race, lin = gen_cases(ctx, with_x=exe_fi is not None, coll=coll)
         for c in corpus:
             if ' X:' in c and not exe_fi:
                 continue
